@@ -142,3 +142,51 @@ Definition emitted (ops : list xop) : list xrow :=
 (* what a sink observes: filtered rows are not delivered *)
 Definition delivered (l : list xdirect) : list xdirect :=
   filter (fun d => match d with DNone => false | _ => true end) l.
+
+(* ---- the same path with overflow strategy `expand` (stream/handler_data.go expandDataChannel,
+   stream/processor_data.go Process): when the buffer is full the producer takes the WRITE lock of the
+   data channel, moves the buffered rows one by one, oldest first, to a larger channel and swaps the
+   reference.  The producer's send and the consumer's "load the reference + receive" hold the READ
+   lock, so neither happens while a migration is in progress.  [locked] = the consumer's receive is
+   covered by that lock (the code as it is); with [locked = false] a consumer that kept an earlier
+   reference may still receive from the old channel during the migration. ---- *)
+Inductive yop :=
+| YEmit (row : xrow)   (* producer: send (under the read lock) *)
+| YStep                (* consumer: receive one row, run direct, call the synchronous sinks *)
+| YBegin               (* expander: write lock taken, empty new channel *)
+| YMove                (* expander: oldest row of the old channel appended to the new one *)
+| YSwap.               (* expander: old channel empty -> reference swapped, lock released *)
+
+Record ystate := {
+  y_old : list xrow;             (* the channel the reference pointed to when the migration began *)
+  y_new : option (list xrow);    (* Some: a migration is in progress *)
+  y_acc : list xrow;             (* rows accepted by the channel so far, in emission order *)
+  y_sink : list xdirect }.
+
+Definition ystep (locked : bool) (q : xquery) (s : ystate) (o : yop) : ystate :=
+  let recv := match y_old s with
+              | [] => s
+              | row :: rest => {| y_old := rest; y_new := y_new s; y_acc := y_acc s;
+                                  y_sink := y_sink s ++ [direct q row] |}
+              end in
+  match o, y_new s with
+  | YEmit row, None => {| y_old := y_old s ++ [row]; y_new := None; y_acc := y_acc s ++ [row]; y_sink := y_sink s |}
+  | YStep, None => recv
+  | YStep, Some _ => if locked then s else recv
+  | YBegin, None => {| y_old := y_old s; y_new := Some []; y_acc := y_acc s; y_sink := y_sink s |}
+  | YMove, Some n => match y_old s with
+                     | [] => s
+                     | row :: rest => {| y_old := rest; y_new := Some (n ++ [row]); y_acc := y_acc s; y_sink := y_sink s |}
+                     end
+  | YSwap, Some n => match y_old s with
+                     | [] => {| y_old := n; y_new := None; y_acc := y_acc s; y_sink := y_sink s |}
+                     | _ :: _ => s
+                     end
+  | _, _ => s   (* blocked by the lock *)
+  end.
+
+Definition yinit : ystate := {| y_old := []; y_new := None; y_acc := []; y_sink := [] |}.
+Definition yrun (locked : bool) (q : xquery) (ops : list yop) : ystate := fold_left (ystep locked q) ops yinit.
+(* rows still buffered, oldest first: migrated rows are older than the ones left in the old channel *)
+Definition ypending (s : ystate) : list xrow :=
+  match y_new s with Some n => n ++ y_old s | None => y_old s end.
